@@ -63,8 +63,10 @@ impl<'a> Walker<'a> {
         if let Some(x) = self.twins.get(&key) {
             return x.clone();
         }
-        let d = D::new(kind, &params_of(kind, p)).expect("twin of a valid tuple");
-        let o = observe(&d, self.seed);
+        // the twin is constructed AND observed in a thread of its own: whatever the thread of the object under test has drawn, cached
+        // or constructed before plays no part in what a fresh object shows
+        let (k2, p2, sd) = (kind.to_string(), params_of(kind, p), self.seed);
+        let o = std::thread::spawn(move || { let d = D::new(&k2, &p2).expect("twin of a valid tuple"); observe(&d, sd) }).join().expect("twin thread");
         self.twins.insert(key, o.clone());
         o
     }
@@ -117,6 +119,20 @@ pub fn replay(cases: &str, verdicts: &str, depth: usize) {
     let (t, order) = load(cases);
     let seed = std::env::var("VERIF_SEED").ok().and_then(|s| s.parse().ok()).unwrap_or(1u64) * 7919 + 13;
     let mut w = Walker { t: &t, v: Verdicts::new(verdicts, "C18"), twins: HashMap::new(), depth, seed };
+    // Default::default() is a distribution object like any other: observationally identical to the freshly constructed object of SOME
+    // parameter tuple (the documented default or any other tuple of the grid) - density, moments, Debug rendering and seeded stream
+    {
+        let defaults: [(&str, Vec<i64>); 13] = [("Normal", vec![0, 4]), ("Gamma", vec![4, 4]), ("Beta", vec![4, 4]), ("ChiSquared", vec![1]), ("T", vec![4]), ("Pareto", vec![4, 4]),
+            ("Gumbel", vec![0, 4]), ("Exponential", vec![4]), ("Uniform", vec![0, 4]), ("DiscreteUniform", vec![0, 1]), ("Poisson", vec![4]), ("Binomial", vec![1, 2]), ("Bernoulli", vec![2])];
+        for (kind, dp) in defaults.iter() {
+            let obs = D::default_of(kind).map(|d| observe(&d, seed));
+            let mut cands: Vec<Vec<i64>> = vec![dp.clone()];
+            cands.extend(order.iter().filter(|(k, _)| k == kind).map(|(_, p)| p.clone()));
+            let hit = obs.as_ref().and_then(|o| cands.iter().find(|c| &w.twin(kind, c) == o).cloned());
+            let diff: Vec<String> = match &obs { Some(o) => w.twin(kind, dp).iter().zip(o.iter()).filter(|(a, b)| a != b).map(|(a, b)| format!("new(documented default) {} / default() {}", a, b)).collect(), None => vec!["panic".into()] };
+            w.v.check(hit.is_some(), kind, "default() is some fresh object", &json!({"kind": kind}), json!({"differs_from_documented_default": diff}));
+        }
+    }
     for (kind, p) in order.iter() {
         w.v.cases += 1;
         let obj = match D::new(kind, &params_of(kind, p)) {
